@@ -71,7 +71,7 @@ def extra(ctx):
     sys.path.insert(0, os.path.join(core.VERIF, "lib", "props"))
     for pid, drvname, k in CORPORA:
         if drvname not in built:
-            # without HAVE_EXPLICIT_BZERO: explicit_bzero is not intercepted by ASan, the fallback wipe loop is instrumented
+            # without HAVE_EXPLICIT_BZERO (as the project's own build): explicit_bzero is not intercepted by ASan, the fallback wipe loop is instrumented
             exe, log = core.ensure_driver(drvname, SAN_FLAGS + (("-w",) if drvname == "drv_heap" else ()), opt="-O1",
                                           defs=["-std=c++11", "-DHMAC_CPP_VERIF", "-DHMAC_CPP_ENABLE_MLOCK"])
             if exe is None:
@@ -83,7 +83,7 @@ def extra(ctx):
         cs = mod.gen(random.Random(ctx["seed"] * 1000003 + sum(map(ord, pid))), "quick")
         lines = [c.line for c in cs]
         if tier == "quick": lines = lines[::k] if k > 1 else lines
-        lines = [l for l in lines if not l.startswith("cteqbig")]                  # 2^32 loop iterations under ASan take minutes and touch no new code
+        lines = [l for l in lines if not l.startswith(("cteqbig", "cteqfill", "pbkdf2end"))]                  # huge loops under ASan take minutes and touch no new code
         if pid == "C11": lines = [l for l in lines if " 1000000 " not in l]       # the accepted iteration limit takes minutes under ASan
         reps = _run_san(exe, lines, rundir, "san_" + pid)
         total += len(lines); per_prop[pid] = len(lines)
